@@ -39,8 +39,12 @@ func histories(t *ot.Target, tier string, plain bool) []history {
 		if tier == "thorough" {
 			nk = len(r.Kinds)
 		}
-		for k := 0; k < nk; k++ {
-			hs = append(hs, history{name: "after:" + r.Method + "/" + r.Kinds[k].Name, calls: []priorOp{{i, k}}})
+		for k := 0; k < len(r.Kinds); k++ {
+			// quick: the first kind, plus (for methods with a designated output; the ...New wrappers run the
+			// same code) the kinds flagged as characteristic history
+			if k < nk || (r.Kinds[k].History && r.Out != nil) {
+				hs = append(hs, history{name: "after:" + r.Method + "/" + r.Kinds[k].Name, calls: []priorOp{{i, k}}})
+			}
 		}
 	}
 	if tier == "thorough" && plain {
